@@ -62,9 +62,12 @@ func sig(op ops.Op, why string) string {
 
 func run(s hist.Script, v *vt.V) {
 	u := &s.U
-	reg := ocimem.NewWithConfig(&ocimem.Config{ImmutableTags: s.Immutable})
+	rcfg := ocimem.Config{ImmutableTags: s.Immutable}
+	reg := ocimem.NewWithConfig(&rcfg)
+	rcfg.ImmutableTags = !s.Immutable // the caller's value is the caller's again once the registry is made
 	env := ops.NewEnv(u, reg)
 	env.KeepCommitted = true
+	env.HoldListings = true
 	defer env.CloseAll()
 	m := model.New(s.Immutable)
 	m.KeepCommitted = true
@@ -77,6 +80,10 @@ func run(s hist.Script, v *vt.V) {
 		out := env.Exec(op)
 		if why := m.Step(u, op, out); why != "" {
 			v.Failf(sig(op, why), "op %d %+v: %s", i, op, why)
+			return
+		}
+		if out.Held != "" {
+			v.Failf("held-listing", "op %d: %s", i, out.Held)
 			return
 		}
 		kinds = append(kinds, fmt.Sprintf("%s%d", op.K, op.Mode))
@@ -114,7 +121,7 @@ func run(s hist.Script, v *vt.V) {
 
 func cfg() hist.Config {
 	c := hist.Config{MaxOps: 40, ValidRepos: 3, InvalidRepos: true, Uploads: true, Mismatch: true, BadManifests: true,
-		Retype: true, Deletes: true, Lists: true, UnknownResumeID: true, MaxSmall: 40, BlobTypes: true, KeepCommitted: true, Attach: true, DeepChain: true}
+		Retype: true, Deletes: true, Lists: true, UnknownResumeID: true, MaxSmall: 40, BlobTypes: true, KeepCommitted: true, Attach: true, DeepChain: true, ManyRepos: true}
 	if vt.Thorough() {
 		c.BigLens = []int{8191, 8192, 8193}
 		c.MaxOps = 60
@@ -125,7 +132,7 @@ func cfg() hist.Config {
 var prop = &vt.Prop[hist.Script]{
 	ID:   "C02",
 	Name: "MemAgreesWithModel",
-	Rule: "state-aware rapid generator of operation histories (<=40 ops, thorough <=60) over 3 valid + 2 malformed repository names, 5 blobs, 6 manifest specs (image/index/opaque/malformed/wrong-shape/bad-descriptor, subjects present/dangling/blob), 4 tags, 2 upload slots; both tag modes; every Interface method and BlobWriter method; after every op the result is checked against the reference model and the touched repositories are swept (resolve/get of every blob, manifest, tag; referrers; listings), full sweep at the end; non-trivial = the history contains a read/re-push after delete, a manifest with references, a dangling-tag read, a tag move, an immutable-mode refusal, a wrong-offset write, a committed upload or a non-empty referrers list; distinct = sequence of (op kind, mode)",
+	Rule: "state-aware rapid generator of operation histories (<=40 ops, thorough <=60) over 3 (a quarter: 6) valid + 2 malformed repository names, 5 blobs, 6 manifest specs (image/index/opaque/malformed/wrong-shape/bad-descriptor, subjects present/dangling/blob), 4 tags, 2 upload slots; both tag modes; every Interface method and BlobWriter method; after every op the result is checked against the reference model and the touched repositories are swept (resolve/get of every blob, manifest, tag; referrers; listings), a listing sequence kept from one operation and run again after the next yields what it did or what a new listing does, the Config value the registry was made from is changed afterwards, full sweep at the end; non-trivial = the history contains a read/re-push after delete, a manifest with references, a dangling-tag read, a tag move, an immutable-mode refusal, a wrong-offset write, a committed upload or a non-empty referrers list; distinct = sequence of (op kind, mode)",
 }
 
 func TestPropModel(t *testing.T) {
